@@ -9,6 +9,7 @@ pure function of the scenario and the code under test.
 import hashlib
 import importlib
 import json
+import copy
 import os
 import random
 import signal
@@ -167,7 +168,16 @@ def guarded_generate(mod, tape, tier):
     old = signal.signal(signal.SIGALRM, _alarm_handler)
     _arm(20)
     try:
-        return mod.generate(tape, tier)
+        sc = mod.generate(tape, tier)
+        if isinstance(sc, dict) and tape.chance(1, 10):
+            # the same scenario is built and judged a second time in the same process (fresh objects): what the first
+            # build left behind in module- or class-level state must not change the outcome
+            sc["again"] = True
+        elif isinstance(sc, dict) and tape.chance(1, 10):
+            # another scenario of the same family is built and run first in the same process (its verdict is not
+            # used here): caches, counters, registries and defaults it leaves behind must not change this one's outcome
+            sc["prelude"] = mod.generate(Tape(seed=10_000_019 + tape.draw(1_000_000)), tier)
+        return sc
     except WallHang:
         raise HarnessError("scenario generator did not terminate within 20 s")
     finally:
@@ -181,7 +191,27 @@ def guarded_execute(mod, scenario):
     old = signal.signal(signal.SIGALRM, _alarm_handler)
     _arm(RUN_WALL_S)
     try:
-        res = mod.execute(scenario)
+        if scenario.get("prelude"):
+            try:
+                mod.execute(copy.deepcopy(scenario["prelude"]))
+            except WallHang:
+                raise
+            except Exception:      # noqa: BLE001   (judged when that scenario is drawn on its own)
+                pass
+        if scenario.get("again"):
+            first = mod.execute(copy.deepcopy(scenario))
+            res = mod.execute(copy.deepcopy(scenario))
+            seen = {vkey(x) for x in first.get("violations", [])}
+            extra = [dict(x, msg="second build of the same scenario in this process: " + str(x.get("msg", "")))
+                     for x in res.get("violations", []) if vkey(x) not in seen]
+            pr = dict(first.get("probes") or {})
+            pr["scenarios_built_twice"] = 1
+            pr["second_build_digest_differs"] = int(first.get("digest") != res.get("digest"))
+            res = dict(first, violations=list(first.get("violations", [])) + extra, probes=pr)
+        else:
+            res = mod.execute(scenario)
+        if scenario.get("prelude"):
+            res["probes"] = dict(res.get("probes") or {}, scenarios_run_after_another=1)
     except WallHang:
         if getattr(mod, "HANG_IS_VIOLATION", False):
             res = {"violations": [{"oracle": "wall-hang", "kind": "hang",
@@ -248,12 +278,17 @@ def _load(modname):
     return importlib.import_module(f"sim.checks.{modname}")
 
 
+_PROC_HISTORY = []      # seeds executed so far by this worker process, in order
+
+
 def _worker(modname, tier, seeds, want_samples):
     import faulthandler
     faulthandler.enable()
     mod = _load(modname)
     out = []
     for s in seeds:
+        before = len(_PROC_HISTORY)
+        _PROC_HISTORY.append(s)
         tape = Tape(seed=s)
         try:
             sc = guarded_generate(mod, tape, tier)
@@ -274,6 +309,9 @@ def _worker(modname, tier, seeds, want_samples):
             rec["violations"] = res["violations"]
             rec["scenario"] = sc
             rec["tape"] = tape.rec
+            # what this process had executed before: a violation that depends on state left behind by earlier runs
+            # (module-level caches, recycled ids) is replayed after the same history
+            rec["history"] = list(_PROC_HISTORY[:before])
         elif want_samples and s in want_samples:
             rec["scenario"] = sc
             rec["outcome"] = res.get("outcome", "")
@@ -480,9 +518,12 @@ def run_batch(modname, tier, base_seed, runs=None, workers=None, wall_cap=None,
         say(f"  violation seed={r['seed']} oracle={v['oracle']} kind={v.get('kind','')}: {v['msg'][:300]}")
         sig0 = mod.known_sig(r["scenario"], v) if hasattr(mod, "known_sig") else None
         best = shrink(mod, tier, r["tape"], k, log=say, want_sig=sig0)
+        history = None
         if best is None:
             best = (r["scenario"], r["violations"], r["tape"])
-            say("  (could not re-run the violation while shrinking; keeping the original)")
+            history = r.get("history") or None
+            say("  (could not re-run the violation while shrinking; keeping the original"
+                + (f" together with the {len(history)} seeds its process had executed before)" if history else ")"))
         sc, vs, tp = best
         vmin = [x for x in vs if vkey(x) == k and
                 (not hasattr(mod, "known_sig") or mod.known_sig(sc, x) == sig0)] or vs
@@ -492,15 +533,34 @@ def run_batch(modname, tier, base_seed, runs=None, workers=None, wall_cap=None,
             known_hit[sig] = known_hit.get(sig, 0) + 1
             continue
         path = os.path.join(ROOT, "replays", f"{prop}-{r['seed']}.json")
+        if any(pth == path for pth, _, _ in reported):
+            # a second, different violation of the same seed gets a replay file of its own
+            path = os.path.join(ROOT, "replays", f"{prop}-{r['seed']}-{len(reported) + 1}.json")
         os.makedirs(os.path.dirname(path), exist_ok=True)
         replay = {"property": prop, "check": modname, "tier": tier, "seed": r["seed"],
                   "base_seed": base_seed, "violation": vmin[0], "key": list(k),
                   "scenario": sc, "tape": tp,
                   "faults_fired": guarded_execute(mod, sc).get("faults", {}),
                   "original_scenario": r["scenario"], "original_tape": r["tape"]}
+        if history:
+            replay["history_seeds"] = history
         with open(path, "w") as f:
             f.write(dumps(replay, indent=1))
         ok = verify_replay(modname, path)
+        if ok and history:
+            # minimise the history: the shortest suffix (1, 2, 4, ... seeds) after which the violation still appears
+            k = 1
+            while k < len(history):
+                replay["history_seeds"] = history[-k:]
+                with open(path + ".try", "w") as f:
+                    f.write(dumps(replay, indent=1))
+                if verify_replay(modname, path + ".try"):
+                    os.replace(path + ".try", path)
+                    say(f"  (history reduced to the last {k} of {len(history)} seeds)")
+                    break
+                k *= 2
+            if os.path.exists(path + ".try"):
+                os.remove(path + ".try")
         reported.append((path, v, ok))
 
     n_viol = len(reported)
@@ -556,6 +616,16 @@ def run_batch(modname, tier, base_seed, runs=None, workers=None, wall_cap=None,
 def do_replay(modname, path, quiet=False):
     mod = _load(modname)
     rp = loads(open(path).read())
+    hist = rp.get("history_seeds") or []
+    if hist and not quiet:
+        print(f"replaying the {len(hist)} seeds the worker process had executed before this one")
+    for hs in hist:
+        # the violation depended on what its worker process had executed before: the same seeds in the same order
+        # (the generators are pure functions of seed and code)
+        try:
+            guarded_execute(mod, guarded_generate(mod, Tape(seed=hs), rp.get("tier", "quick")))
+        except Exception:      # noqa: BLE001
+            pass
     res = guarded_execute(mod, rp["scenario"])
     key = tuple(rp["key"])
     same = [v for v in res["violations"] if vkey(v) == key]
@@ -577,7 +647,7 @@ def verify_replay(modname, path):
     """Replay in a fresh interpreter (other PYTHONHASHSEED) - must fail the same way."""
     env = dict(os.environ, PYTHONHASHSEED="12345")
     p = subprocess.run([sys.executable, os.path.join(ROOT, "check"), modname, "--replay", path,
-                        "--quiet"], capture_output=True, text=True, env=env, timeout=600)
+                        "--quiet"], capture_output=True, text=True, env=env, timeout=1800)
     return p.returncode == 1 and "VIOLATION" in p.stdout
 
 
